@@ -8,6 +8,7 @@
 import PasfmtModel.Proofs.RulesSim
 import PasfmtModel.Proofs.ReconProps
 import PasfmtModel.Model.Mls
+import PasfmtModel.Proofs.RulesIdem
 
 namespace Pasfmt.C03
 
@@ -65,5 +66,18 @@ theorem fmtdata_of_emitted_newlines (n : Nat) (crlf : Bool) (hn : n ≤ 65535) :
       rw [List.replicate_succ, List.flatten_cons, List.filter_append, List.length_append, ih (by omega)]
       cases crlf <;> simp <;> omega
   rw [this]; omega
+
+/-- the line-comment rule applied to its own result does not change it again, for every comment text
+    and every behaviour of the Unicode-alphanumeric test -/
+theorem line_comment_rule_idem (U : Bytes → Bool) (c c' : Bytes) (h : formatLineComment U c = some c') :
+    formatLineComment U c' = none := formatLineComment_idem U c c' h
+
+/-- the compiler-directive rule applied to its own result does not change it again -/
+theorem directive_rule_idem (c c' : Bytes) (h : formatCompilerDirective c = some c') :
+    formatCompilerDirective c' = none := formatCompilerDirective_idem c c' h
+
+/-- the comment formatter as a whole is a fixpoint after one application (ignored tokens included) -/
+theorem comment_formatter_idem (U : Bytes → Bool) (ft : FT) :
+    commentFormatter U (commentFormatter U ft) = commentFormatter U ft := commentFormatter_idem U ft
 
 end Pasfmt.C03
